@@ -50,9 +50,10 @@ type schedReport struct {
 	Outcomes    int      `json:"distinct_outcomes"`
 	CapHit      bool     `json:"cap_hit"`
 	Failure     string   `json:"failure"`
-	FailSched   []int    `json:"failing_schedule"`
+	FailSched   []struct{ At, Choice int; Preemption bool } `json:"failing_schedule"`
 	Globals     []string `json:"package_level_variables"`
 	Static      int      `json:"static_points"`
+	GlobalWrite string   `json:"package_level_write"`
 }
 
 // points per operation alone (measured by the bound-0 phase of a previous pair is not available here):
@@ -76,18 +77,16 @@ func schedulePair(c *h.Ctx, kind string, idx int, names []string, maxSteps1, max
 	if !ok {
 		return
 	}
-	total := 0
-	prod := 1.0
+	total := 0.0
 	for _, p := range r.PointsAlone {
-		total += p
-		prod *= float64(p)
+		total += float64(p)
 	}
 	bound := 0
-	// cost model: bound 1 ~ (a+b)^2 steps, bound 2 ~ a*b*(a+b) steps
-	if float64(total)*float64(total) <= maxSteps1 {
+	// cost model (steps): bound 1 ~ T^2, bound 2 ~ T^3/2 where T = sum of the threads' scheduling points
+	if total*total <= maxSteps1 {
 		bound = 1
 	}
-	if maxSteps2 > 0 && prod*float64(total) <= maxSteps2 {
+	if maxSteps2 > 0 && total*total*total/2 <= maxSteps2 {
 		bound = 2
 	}
 	if bound > 0 && r.Failure == "" {
@@ -102,6 +101,9 @@ func schedulePair(c *h.Ctx, kind string, idx int, names []string, maxSteps1, max
 		c.Info["package-level variables found by the instrumenter"] = strings.Join(r.Globals, ",")
 	}
 	c.Info["static scheduling points"] = fmt.Sprint(r.Static)
+	if r.GlobalWrite != "" {
+		c.Info["package-level state written during calls (fact, not a verdict)"] = r.GlobalWrite
+	}
 	if r.Failure != "" {
 		c.Fail("schedule-breaks-call:"+names[0]+"|"+names[len(names)-1], in, fmt.Sprintf("%s; schedule (choice per decision) %v; preemption bound %d", r.Failure, r.FailSched, bound))
 	}
@@ -145,10 +147,10 @@ func init() {
 				}
 				return n
 			}
-			max1, max2 := 7e6, 0.0
+			max1, max2 := 4e7, 2e7
 			reps := 20
 			if tier == "thorough" {
-				max1, max2 = 4e7, 2.5e8
+				max1, max2 = 1e9, 1e9
 				reps = 40
 			}
 			sp := []h.Space{
@@ -173,7 +175,7 @@ func init() {
 					h.Space{Name: "scheduler-all-triples", Count: uint64(len(tr)), ChunkHint: 1,
 						Describe: func(i uint64) interface{} { return names(tr[i][0], tr[i][1], tr[i][2]) },
 						Run: func(c *h.Ctx, i uint64) {
-							schedulePair(c, "triple", int(i), names(tr[i][0], tr[i][1], tr[i][2]), 4e6, 0)
+							schedulePair(c, "triple", int(i), names(tr[i][0], tr[i][1], tr[i][2]), 4e7, 0)
 						}})
 			}
 			return sp
